@@ -42,13 +42,15 @@ GRPCPROXY = dict(pkg="./cache/grpcproxy", test="TestVerifGrpcProxyRoundTrip", na
 S3PROXY = dict(pkg="./cache/s3proxy", test="TestVerifS3RoundTrip", name="s3proxy", diff=False)
 HTTPPROXY = dict(pkg="./cache/httpproxy", test="TestVerifHTTPProxyRoundTrip", name="httpproxy", diff=False)
 
-SRVREAD = dict(pkg="./server", test="TestVerifServerReadPaths", name="srvread", diff=False)
+SRVREAD = dict(pkg="./server", test="TestVerifServerReadPaths", name="srvread", diff=True)
 
 FDLEAK = dict(pkg="./server", test="TestVerifServerFdLeaks", name="fdleak", diff=False)
 
 USE = dict(pkg="./cache/disk", test="TestVerifUseRefreshesRecency", name="use", diff=False)
 
 SRVLIMIT = dict(pkg="./server", test="TestVerifServerBlobLimits", name="srvlimit", diff=False)
+
+READTHROUGH = dict(pkg="./cache/disk", test="TestVerifReadThroughMatrix", name="readthrough", diff=False)
 
 COMMON_TB = [
     "goroutine scheduling, sync.Mutex and the file system are modelled (atomic lock regions, process-visible file state), not verified",
@@ -72,7 +74,7 @@ PROPS = {
         level_text="Theorems on M1's Reserve: refusal iff current + backlog + size exceeds the hard limit, refusal leaves the state unchanged, retry succeeds after the backlog drained, no refusal when the option is off. Server-level oracle: with the cache filled to the limit every write path (HTTP, BatchUpdateBlobs, ByteStream.Write, UpdateActionResult with inlined blobs, FetchBlob; both storage modes) answers 507 / RESOURCE_EXHAUSTED, stores and evicts nothing, reads keep working.",
         level_note=NOTE + "the uint64 sum is modelled exactly.", technique=TECH),
     "C02": dict(
-        lean="BR.Props.C02", runs=[BLOB, BLOBREAL, DISK, SRVREAD], trusted_base=COMMON_TB + [
+        lean="BR.Props.C02", runs=[BLOB, BLOBREAL, DISK, READTHROUGH, SRVREAD], trusted_base=COMMON_TB + [
             "zstd codecs (klauspost, libzstd) enter the theorems as a parameter satisfying Codec.Lawful; SHA-256 as an opaque function"],
         assumptions=["offset >= 0 (enforced by disk.get before the readers are called)"],
         level_text="Theorems on M2 (casblob): for every conformant file (any chunk size, any frames decoding to the chunks) and every offset below the size, both readers return exactly data[offset:] (raw: the bytes; zstd: a stream decoding to them); the writer's output is conformant; readers are total.",
@@ -91,7 +93,7 @@ PROPS = {
         level_text="Invariant on M4 proved for every sequential history with failures injected at every stage: the regular files are exactly the files of indexed entries plus those queued for removal, each with the recorded length; after draining, directory = index.",
         level_note=NOTE + "concurrent histories via the atomic-lock-region assumption (C07).", technique=TECH),
     "C12": dict(
-        lean="BR.Props.C12", runs=[DISK, GRPCPROXY, S3PROXY, HTTPPROXY], trusted_base=COMMON_TB + ["transport code of the concrete back ends (net/http, grpc, minio, azure SDK) is not modelled"],
+        lean="BR.Props.C12", runs=[DISK, READTHROUGH, GRPCPROXY, S3PROXY, HTTPPROXY], trusted_base=COMMON_TB + ["transport code of the concrete back ends (net/http, grpc, minio, azure SDK) is not modelled"],
         assumptions=["the back end is trusted for content it completely delivers"],
         level_text="Theorems on M4's proxy read-through: a hit carries exactly the back end's bytes with the announced size; every fault (error, not found, short/long stream, wrong or unknown size, oversize) yields a miss or an error, stores nothing and releases the reservation; each accepted upload is forwarded once.",
         level_note=NOTE + "partial: back-end transport libraries outside the model.", technique=TECH),
